@@ -16,6 +16,7 @@ THEOREMS = ["IsobarV.C03." + t for t in (
     "voice_pitch", "voice_pitch_scalar", "voice_pitch_degree_formula", "given_note_pitch", "float_degree_truncates",
     "rest_is_silent", "inactive_is_silent", "dispatch_table", "resolved_arguments", "voice_sounds", "note_voices",
     "event_init_is_resolve", "args_resolved_once", "scale_names_aligned",
+    "voice_calls", "voiceLoop_calls", "pitch_bend_only_with_a_note_on", "silent_note_sends_nothing",
 )]
 RULE = ("both tiers first play the complete cross product of the 2^7 subsets of type-selecting keys (action, patch, control, "
         "program_change, osc_address, synth, note|degree; once with note, once with degree) and a fixed corpus of edge "
